@@ -51,6 +51,41 @@ MAYBE_NONE = {'make_and', 'derive_symbol'}
 INT_FUNCS = {'int', 'len', 'get_bv_width', 'abs', 'min', 'max', 'sum'}
 
 
+def _none_def_reaches(f, st, use, name):
+    """Can the definition ``name = None`` (statement st) reach the use
+    without passing a rebinding of name or a branch that refutes
+    "name is None"?"""
+    from ..cfg import cfg_of, expr_owner_node, stmt_effects
+    cfg = cfg_of(f)
+    d = cfg.node_of.get(id(st))
+    u = expr_owner_node(cfg, use)
+    if d is None or u is None:
+        return True
+    refute = {(f'{name} is None', False), (f'{name} is not None', True),
+              (name, True)}
+    from ..cfg import fact_key
+    seen = {d}
+    work = [d]
+    while work:
+        n = work.pop()
+        for e in n.succ:
+            if e.kind == 'exc':
+                continue
+            if any(fact_key(x, p) in refute for (x, p) in e.facts):
+                continue
+            t = e.dst
+            if t is u:
+                return True
+            if t in seen:
+                continue
+            seen.add(t)
+            bound, _ = stmt_effects(t)
+            if name in bound:
+                continue
+            work.append(t)
+    return False
+
+
 class Abs:
     """Abstract evaluation of replacement values and leaf texts."""
 
@@ -321,6 +356,16 @@ class Abs:
             return ('node-or-int', )
         if a[0] == 'list' and b[0] == 'list':
             return ('list', self.join(a[1], b[1]))
+        if a[0] == 'pytuple' and b[0] == 'pytuple' and len(a[1]) == len(
+                b[1]):
+            return ('pytuple', [self.join(x, y) for x, y in zip(a[1], b[1])])
+        # a node or a Python list of nodes: both iterate over nodes
+        for x, y in ((a, b), (b, a)):
+            if x[0] == 'list' and x[1] == ('node', ) and y[0] in (
+                    'node', 'nodes'):
+                return ('nodes', )
+            if x[0] == 'nodes' and y[0] in ('node', 'nodes'):
+                return ('nodes', )
         return ('unknown', f'join of {a[0]} and {b[0]}')
 
     def elem_of(self, k):
@@ -333,7 +378,7 @@ class Abs:
             for x in k[1]:
                 acc = x if acc is None else self.join(acc, x)
             return acc or ('node', )
-        if k[0] == 'node':
+        if k[0] in ('node', 'nodes'):
             return ('node', )
         if k[0] == 'dictconst':
             return ('text', 'FRAG', True, None)
@@ -519,6 +564,12 @@ class Abs:
             if isinstance(st, ast.Assign):
                 for t in st.targets:
                     if isinstance(t, ast.Name) and t.id == name:
+                        if isinstance(st.value, ast.Constant) and \
+                                st.value.value is None and \
+                                not _none_def_reaches(f, st, e, name):
+                            # "x = None" default that every path to this
+                            # use either overwrites or refutes (x is None)
+                            continue
                         defs.append(('assign', st.value))
                     elif isinstance(t, ast.Tuple):
                         for i, x in enumerate(t.elts):
@@ -562,7 +613,22 @@ class Abs:
                     k = ('int', ) if d[2] == 0 else self.elem_of(
                         self.kind(it.args[0], m, f, env, depth + 1))
                 else:
-                    k = ('unknown', f'iteration unpack {unparse(it)[:30]}')
+                    k = None
+                    try:
+                        from ..astutil import module_const
+                        tabv = module_const(m, it)
+                    except ValueError:
+                        tabv = None
+                    if isinstance(tabv, (tuple, list)) and tabv and all(
+                            isinstance(r_, (tuple, list))
+                            and len(r_) > d[2] for r_ in tabv):
+                        for r_ in tabv:
+                            kk = self.kind(ast.Constant(value=r_[d[2]]), m,
+                                           f, env, depth + 1)
+                            k = kk if k is None else self.join(k, kk)
+                    if k is None:
+                        k = ('unknown',
+                             f'iteration unpack {unparse(it)[:30]}')
             acc = k if acc is None else self.join(acc, k)
         return acc
 
@@ -1184,6 +1250,14 @@ def rule_r5(chk, prog, ab):
                     if t.startswith('isinstance('):
                         continue
                     n += 1
+                    # an alias of a sub-node (quant = node[1]) is expanded
+                    from ..astutil import single_defs
+                    al = {k: v for k, v in single_defs(f).items()
+                          if isinstance(v, ast.Subscript)}
+                    test_x = st.test
+                    for _ in range(3):
+                        test_x = subst(test_x, al)
+                    t = unparse(test_x)
                     facts = set(facts_at(f, st))
                     if filt is not None:
                         ff = summ.true_facts(m, filt)
@@ -1199,7 +1273,7 @@ def rule_r5(chk, prog, ab):
                     facts = summ.expand(m, facts)
                     ok = (t, True) in facts
                     if not ok:
-                        ok = _assert_implied(st.test, facts, f, m, ab)
+                        ok = _assert_implied(test_x, facts, f, m, ab)
                     chk.check('C15.R5', f'{m.name}.{cname}.{mn}', st, ok,
                               f'"assert {t}" is not implied by what the '
                               'filter (or a dominating test) establishes: '
